@@ -106,9 +106,12 @@ type cwWorld struct {
 	plan          *cwPlan         // a contract deployment onto an address that was funded beforehand
 	hunt          bool            // time spends of small unlocked outputs to the block that trims them
 	busy          bool            // more region blocks, and every one of them delivers a burst of lockup coinbases
-	adversarialQi bool            // some Qi transactions handed to the pool are invalid in ways only block assembly can notice
-	convertQi     bool            // some Qi spends are Qi -> Quai conversions
-	bigLogs       bool            // deploy and call a contract whose receipt carries a 110000-byte log (a block whose write batch passes the 100 KiB mark)
+	zoneRun       int             // so many of the next blocks are asked to be of zone order
+	priceVar      bool            // some Quai transactions pay a dearer gas price than the rest (area c07: price order of a block)
+	priceMult     int64
+	adversarialQi bool // some Qi transactions handed to the pool are invalid in ways only block assembly can notice
+	convertQi     bool // some Qi spends are Qi -> Quai conversions
+	bigLogs       bool // deploy and call a contract whose receipt carries a 110000-byte log (a block whose write batch passes the 100 KiB mark)
 	biglog        *common.Address
 	quiet         bool                      // the next block: no user activity, zone order, Quai coinbase (whatever the block does to the Qi ledger, it does unasked: trimming)
 	forceRegion   int                       // when it counts down to zero the block being built is of region order
@@ -537,6 +540,9 @@ func (s cwScan) digest() string {
 
 func (w *cwWorld) gasPrice() *big.Int {
 	bf := w.node.hc.CalcBaseFee(w.head())
+	if w.priceMult > 0 {
+		return new(big.Int).Mul(bf, big.NewInt(w.priceMult))
+	}
 	return new(big.Int).Mul(bf, big.NewInt(3))
 }
 
@@ -701,6 +707,32 @@ func (w *cwWorld) userActivity() {
 			w.count("tx:convert-to-qi")
 		}
 	}
+	// three independent transactions at three prices above the usual one, the cheapest of them failing (a creation whose
+	// constructor reverts): the assembler lists them dearest first
+	if w.priceVar && rc.Chance(45) {
+		var free []*cwAcct
+		for _, a := range w.quai {
+			if w.plan == nil || a != w.plan.deployer {
+				free = append(free, a)
+			}
+		}
+		if len(free) >= 3 {
+			off := rc.Intn(len(free))
+			to1, to2 := w.randQuaiAddr(), w.randQuaiAddr()
+			w.priceMult = 6
+			cur = free[off%len(free)]
+			txs.add(w.signQuai(cur, &to1, big.NewInt(int64(1+rc.Intn(1e9))), nil, 21000))
+			w.priceMult = 4
+			cur = free[(off+1)%len(free)]
+			code, addr := grindCreate(cur.addr, cur.nonce, []byte{byte(vm.PUSH1), 0, byte(vm.PUSH1), 0, byte(vm.REVERT)}, w.node.loc)
+			txs.add(w.signQuai(cur, nil, big.NewInt(0), code, 200000, types.AccessTuple{Address: addr}))
+			w.priceMult = 5
+			cur = free[(off+2)%len(free)]
+			txs.add(w.signQuai(cur, &to2, big.NewInt(int64(1+rc.Intn(1e9))), nil, 21000))
+			w.priceMult = 0
+			w.count("tx:price-trio")
+		}
+	}
 	// wrapped Qi: accept deposits made in the wrapper contract's name, unwrap part of what it holds
 	if w.wrapper != nil && len(w.wrapped) > 0 && rc.Chance(50) {
 		lc := vm.LockupContractAddresses[[2]byte{0, 0}]
@@ -754,6 +786,15 @@ func (s *cwSubmitter) add(tx *types.Transaction) {
 			s.w.resyncNonces()
 		}
 		if os.Getenv("QVH_DEBUG") != "" {
+			if tx.Type() == types.QuaiTxType {
+				from, _ := types.Sender(types.NewSigner(s.w.node.sl.Config().ChainID, s.w.node.loc), tx)
+				ia, _ := from.InternalAddress()
+				p, q := s.w.node.sl.TxPool().ContentFrom(ia)
+				fmt.Fprintln(os.Stderr, "  DBG from", from.Hex()[:10], "price", tx.GasPrice(), "head", s.w.head().NumberU64(2), "poolnonce", s.w.node.sl.TxPool().Nonce(ia), "pending", len(p), "queued", len(q))
+				for _, x := range p {
+					fmt.Fprintln(os.Stderr, "    pending nonce", x.Nonce(), "price", x.GasPrice(), "gas", x.Gas())
+				}
+			}
 			fmt.Fprintln(os.Stderr, "pool reject:", errs[0], "type", tx.Type(), "nonce", func() uint64 {
 				if tx.Type() == types.QuaiTxType {
 					return tx.Nonce()
@@ -775,7 +816,20 @@ func (w *cwWorld) resyncNonces() {
 	}
 	for _, a := range w.quai {
 		ia, _ := a.addr.InternalAddress()
+		was := a.nonce
 		a.nonce = st.GetNonce(ia)
+		if os.Getenv("QVH_DEBUG") != "" && was != a.nonce {
+			fmt.Fprintln(os.Stderr, "  DBG resync", a.addr.Hex()[:10], "was", was, "state", a.nonce, "pool", w.node.sl.TxPool().Nonce(ia))
+		}
+		if w.priceVar {
+			// transactions still waiting in the pool keep their nonces
+			p, q := w.node.sl.TxPool().ContentFrom(ia)
+			for _, x := range append(append(types.Transactions{}, p...), q...) {
+				if x.Nonce() >= a.nonce {
+					a.nonce = x.Nonce() + 1
+				}
+			}
+		}
 	}
 }
 
@@ -1026,6 +1080,11 @@ func (w *cwWorld) build() (*cwStep, error) {
 		// the block after this one is the first with a gas limit: let it receive coinbase ETXs (they start to be
 		// charged TxGas exactly there, by the worker and by the processor separately)
 		want = common.REGION_CTX
+	}
+	if w.zoneRun > 0 {
+		// a run of zone-order blocks (the manifest the next coincident block commits to grows with each)
+		w.zoneRun--
+		want = common.ZONE_CTX
 	}
 	if w.forceRegion > 0 && n.h == nil {
 		w.forceRegion--
